@@ -182,7 +182,18 @@ func (g *gen) subRange(cur []vt.Iv, fd int, mode int) string {
 		// is a subset only if both ends lie in one run of touching parts
 		iv := cur[g.pick(len(cur), "kwiv")]
 		x := pt(iv, "kwx")
-		switch g.pick(4, "kwform") {
+		switch g.pick(7, "kwform") {
+		case 4:
+			// a part that is the single boundary max (or min) stands for that one value
+			parts = []string{"max"}
+		case 5:
+			parts = []string{"min"}
+		case 6:
+			if x.Cmp(cur[0].Lo) > 0 && x.Cmp(cur[len(cur)-1].Hi) < 0 {
+				parts = []string{"min", f(x), "max"}
+			} else {
+				parts = []string{"min", "max"}
+			}
 		case 0:
 			parts = []string{f(x) + "..max"}
 		case 1:
